@@ -518,10 +518,10 @@ def _graph_finder(x_matrix, z_matrix, get_ops_data=False):
     h_positions = _position_finder(x_mat)
 
     x_mat, z_mat = sla.hadamard_transform(x_mat, z_mat, h_positions)
-    assert (np.linalg.det(x_mat)).astype(
-        int
-    ) % 2 != 0, "Stabilizer generators are not independent."
-    x_inv = (np.linalg.det(x_mat.T) * np.linalg.inv(x_mat.T) % 2).astype(int)
+    assert (
+        int(np.round(np.linalg.det(x_mat))) % 2 != 0
+    ), "Stabilizer generators are not independent."
+    x_inv = (np.round(np.linalg.det(x_mat.T) * np.linalg.inv(x_mat.T)) % 2).astype(int)
     final_z = (z_mat.T @ x_inv) % 2
 
     # get position of non-zero diagonal elements in the final Z matrix to find qubits to apply clifford operations on
@@ -567,7 +567,7 @@ def _phase_correction(stabilizer_tab1, stabilizer_tab2, gate_list):
     new_tab = canonical_form(run_circuit(tab1.copy(), gate_list))
     phase_diff = (tab2.phase - new_tab.phase) % 2
     x_mat = np.copy(new_tab.x_matrix)
-    x_inv = ((np.linalg.det(x_mat) * np.linalg.inv(x_mat)) % 2).astype(int)
+    x_inv = (np.round(np.linalg.det(x_mat) * np.linalg.inv(x_mat)) % 2).astype(int)
     z_ops = (x_inv @ phase_diff) % 2
     phase_correction = [("Z", index) for index, z in enumerate(z_ops) if z]
     return phase_correction
